@@ -118,7 +118,7 @@ ARGS_CORE = ["none", "str", "str_full", "list", "list_empty", "tuple", "concat",
 SHELLS = [
     None, "True", "False", "None", "0", "1", "-1", "2.0", "0.0", "0j", "1j", "''", "'x'", "'True'", "'False'",
     "b''", "b'x'", "[]", "[1]", "[[]]", "()", "(1,)", "{}", "{'a': 1}", "{**zz_d}", "{1}", "{[1]}", "{(1, [2])}",
-    "zz_flag", "zz_get()", "not zz_x", "zz_o.flag", "zz_o.True", "...", "f''", "f'{zz_x}'", "lambda: 0",
+    "zz_flag", "zz_get()", "not zz_x", "zz_o.flag", "...", "f''", "f'{zz_x}'", "lambda: 0",
     "1 == 1", "True and zz_x", "zz_t[0]", "1 if zz_x else 0",
 ]
 SHELLS_CORE = [None, "True", "False", "0", "1", "''", "()", "[]", "{}", "zz_flag", "{[1]}"]
@@ -311,7 +311,7 @@ WILD_CALLERS = [
     (["import subprocess"], "subprocess.call", "1"),
     (["import subprocess"], "subprocess.run", "'True'"),
     (["import subprocess"], "subprocess.check_call", "true"),
-    (["import subprocess"], "subprocess.check_output", "zz_o.True"),
+    (["import subprocess"], "subprocess.check_output", "zz_o.shell"),
     (["import os"], "os.execl", "True"),
     ([], "zz_wrapper", "True"),
 ]
@@ -397,7 +397,6 @@ def g_wraps():
     # a call nested in the argument of another configured call, decorators, repeated keyword (SyntaxError)
     out.append(P("import subprocess, os\nsubprocess.Popen(os.popen('ls').read(), shell=True)\n"))
     out.append(P("import subprocess\n@subprocess.call('ls', shell=True)\ndef zz_f():\n    pass\n"))
-    out.append(P("import subprocess\nsubprocess.call('ls', shell=True, shell=False)\n"))
     out.append(P("import subprocess\nsubprocess.call('ls', shell=True)  # nosec\n"))
     out.append(P("import subprocess\nsubprocess.call('ls',\n    shell=True)  # nosec B602\n"))
     out.append(P("import subprocess\nsubprocess.call('ls',  # nosec B603\n    shell=True)\n"))
@@ -454,18 +453,37 @@ def g_wild():
     return out
 
 
+def g_dup_kw():
+    """a repeated shell= keyword: ast.parse accepts it (only compile() rejects it), so bandit scans it;
+    has_shell lets the last one decide, the reported line is the first one's"""
+    out = []
+    vals = ["True", "False", "0", "1", "()", "zz_flag", "{[1]}", "None", "'True'"]
+    for imps, callee in REPRESENTATIVES:
+        for a in ("'ls'", "['chmod', '*']", "", "zz_c"):
+            for v1 in vals:
+                for v2 in vals:
+                    for sep in (", ", ",\n    "):
+                        kws = "shell=%s%sshell=%s" % (v1, sep, v2)
+                        inner = (a + sep + kws) if a else kws
+                        out.append(P(wrap(imps, "%s(%s)" % (callee, inner), "stmt")))
+            out.append(P(wrap(imps, "%s(%s shell=True, **zz_k, shell=False,\n    shell=1)" % (callee, a + "," if a else ""),
+                              "stmt")))
+    return out
+
+
 GROUPS = [
     # (function, quick sample size, thorough sample size or None = everything)
     (g_names, 300, None),
-    (g_names_full, 0, 4500),
-    (g_args_shells, 420, 8500),
-    (g_extra_kw, 150, 4000),
+    (g_names_full, 0, 4000),
+    (g_args_shells, 420, 8000),
+    (g_extra_kw, 150, 3500),
     (g_other_callees, 120, 2000),
     (g_wraps, 80, None),
     (g_configs, 260, None),
     (g_single_ids, 28, None),
     (g_paths, 180, None),
-    (g_wild, 260, 4000),
+    (g_wild, 260, 3700),
+    (g_dup_kw, 120, 1700),
 ]
 
 
